@@ -265,6 +265,12 @@ def base_streams():
     return _BASE
 
 
+def conformant_by_construction(name):
+    """base streams that are conformant because of how they were made (encoder output, hand-assembled per the
+    standard, test-case generator output, concatenations of those) -- everything except the streams made to be wrong"""
+    return not (name.startswith("huge_") or name.startswith("tiny_header_zero_"))
+
+
 def pi_offsets(data):
     """byte offsets of parse_info headers found by following next_parse_offset / scanning for the prefix"""
     offs = []
